@@ -4,7 +4,7 @@ from __future__ import annotations
 from fractions import Fraction
 
 from harness import core, gen
-from harness.core import ok, fail, skip
+from harness.core import ok, fail, skip, rs
 from harness.worker import Stream
 
 OBLIGATIONS = [
@@ -153,11 +153,28 @@ def run_binop(case, drv):
 
 # ----------------------------------------------------------------------------- unary ops
 def gen_unop(rng, tier):
-    names, card, labels = pool(rng)
-    vs = list(range(len(names)))
-    f = gen.rand_factor(rng, vs, card, k=rng.randint(1, min(4, len(vs))))
+    wide = rng.random() < .12
+    if wide:
+        # a wide scope (9-11 variables, mostly binary): position arithmetic over more than 8 axes; usually only 1-4 variables are kept
+        n = rng.randint(9, 11)
+        names = gen.node_names(rng, n)
+        card = [rng.choice([1, 2, 2, 2, 2, 3]) for _ in range(n)]
+        labels = [gen.state_labels(rng, c) for c in card]
+        f = gen.rand_factor(rng, list(range(n)), card, k=n, style="small")
+    else:
+        names, card, labels = pool(rng)
+        vs = list(range(len(names)))
+        f = gen.rand_factor(rng, vs, card, k=rng.randint(1, min(4, len(vs))))
     op = rng.choice(["marginalize", "maximize", "reduce", "normalize", "marginalize", "reduce"])
-    sub = rng.sample(f["scope"], rng.randint(1, len(f["scope"]))) if op != "normalize" else []
+    if rng.random() < .2:
+        # total mass far below 1e-8 (products of many small likelihoods): still an ordinary factor
+        sc = Fraction(1, 10 ** rng.choice([9, 12, 15]))
+        f["vals"] = [rs(Fraction(x) * sc) for x in f["vals"]]
+    if wide and op != "normalize":
+        keep = rng.randint(1, 4) if rng.random() < .8 else rng.randint(5, len(f["scope"]) - 1)
+        sub = rng.sample(f["scope"], len(f["scope"]) - keep)
+    else:
+        sub = rng.sample(f["scope"], rng.randint(1, len(f["scope"]))) if op != "normalize" else []
     ev = [[v, rng.randrange(card[v])] for v in sub] if op == "reduce" else []
     if op == "normalize" and sum(Fraction(x) for x in f["vals"]) == 0:
         return None
@@ -406,6 +423,83 @@ def run_scalar(case, drv):
     return ok(op=case["op"], inplace=case["inplace"])
 
 
+# ----------------------------------------------------------------------------- FactorDict (clique-keyed factor collections)
+def gen_fdict(rng, tier):
+    names, card, labels = pool(rng)
+    n = len(names)
+    keys = []
+    for _ in range(rng.randint(1, 3)):
+        k = sorted(rng.sample(range(n), rng.randint(1, min(3, n))))
+        if k not in keys:
+            keys.append(k)
+
+    def table(k):
+        sc = list(k)
+        rng.shuffle(sc)                 # the factor stored under a clique may list its variables in any order
+        size = 1
+        for v in sc:
+            size *= card[v]
+        return {"scope": sc, "vals": [rs(x) for x in gen.rand_vals(rng, size, rng.choice(["generic", "small"]))]}
+    return {"names": names, "card": card, "labels": labels, "keys": keys, "a": [table(k) for k in keys], "b": [table(k) for k in keys],
+            "op": rng.choice(["dot", "dot", "add", "sub", "scale", "add_const", "product"]), "c": rs(Fraction(rng.randint(-6, 6), rng.choice([1, 2, 4])))}
+
+
+def run_fdict(case, drv):
+    """FactorDict arithmetic is the factor arithmetic of the entries, aligned by VARIABLE NAME: dot = sum over cliques of the sum of
+    the pointwise product; +, -, const * act clique by clique; product() is the factor product of all entries"""
+    from pgmpy.factors.FactorDict import FactorDict
+    import numpy as np
+    names, card, labels = case["names"], case["card"], case["labels"]
+    pn = [gen.lab(x) for x in names]
+    key = lambda k: tuple(pn[v] for v in k)
+    A = FactorDict({key(k): gen.factor_to_pgmpy(names, card, labels, f) for k, f in zip(case["keys"], case["a"])})
+    B = FactorDict({key(k): gen.factor_to_pgmpy(names, card, labels, f) for k, f in zip(case["keys"], case["b"])})
+    ma = [gen.factor_model(card, f) for f in case["a"]]
+    mb = [gen.factor_model(card, f) for f in case["b"]]
+    sa, sb = [snapshot(A[k]) for k in A], [snapshot(B[k]) for k in B]
+    op, c = case["op"], Fraction(case["c"])
+    tags = dict(op=op, ncliques=len(case["keys"]))
+    try:
+        if op == "dot":
+            got = float(A.dot(B))
+            exp = sum(sum(Fraction(x) for x in drv.call("f_product", f=x, g=y)["vals"]) for x, y in zip(ma, mb))
+            if not core.close(got, exp):
+                return fail(f"FactorDict.dot = {got}, sum over cliques of the summed pointwise products = {float(exp)}", **tags)
+        elif op == "product":
+            if any(ma[i] == ma[j] for i in range(len(ma)) for j in range(i)):
+                return skip("equal factors")
+            res = A.product()
+            rep = ma[0]
+            for x in ma[1:]:
+                rep = drv.call("f_product", f=rep, g=x)
+            err = compare_factor(res, rep, names, card, labels)
+            if err:
+                return fail(f"FactorDict.product: {err}", **tags)
+        else:
+            if op == "add":
+                R, reps = A + B, [drv.call("f_add", f=x, g=y) for x, y in zip(ma, mb)]
+            elif op == "sub":
+                R = A - B
+                reps = [drv.call("f_add", f=x, g={**y, "vals": [rs(-Fraction(v)) for v in y["vals"]]}) for x, y in zip(ma, mb)]
+            elif op == "scale":
+                R = float(c) * A if len(case["keys"]) % 2 else A * float(c)
+                reps = [{**x, "vals": [rs(c * Fraction(v)) for v in x["vals"]]} for x in ma]
+            else:
+                R = A + float(c)
+                reps = [{**x, "vals": [rs(c + Fraction(v)) for v in x["vals"]]} for x in ma]
+            if set(R.keys()) != set(A.keys()):
+                return fail(f"FactorDict {op}: keys {list(R.keys())} vs {list(A.keys())}", **tags)
+            for k, rep in zip(case["keys"], reps):
+                err = compare_factor(R[key(k)], rep, names, card, labels)
+                if err:
+                    return fail(f"FactorDict {op}, clique {key(k)}: {err}", **tags)
+    except Exception as e:
+        return fail(f"FactorDict {op} raised {type(e).__name__}: {e}", **tags)
+    if [snapshot(A[k]) for k in A] != sa or [snapshot(B[k]) for k in B] != sb:
+        return fail(f"FactorDict {op} modified an operand", **tags)
+    return ok(nontrivial=True, **tags)
+
+
 STREAMS = [
     Stream("binop", gen_binop, run_binop, quick=1500, thorough=20000),
     Stream("unop", gen_unop, run_unop, quick=1200, thorough=15000),
@@ -413,6 +507,7 @@ STREAMS = [
     Stream("nary", gen_nary, run_nary, quick=400, thorough=5000),
     Stream("eq", gen_eq, run_eq, quick=600, thorough=8000),
     Stream("scalar", gen_scalar, run_scalar, quick=200, thorough=2000),
+    Stream("factor_dict", gen_fdict, run_fdict, quick=300, thorough=3000),
 ]
 
 LEVEL_TEXT = ("Kernel-checked theorems (Props/C04.lean) state, for every well-formed table, axis order and in-range assignment, "
